@@ -114,6 +114,84 @@ theorem backtrack_shape_is_model (pi : Rat) (t : Tank) (hx : t.extrap = true) (c
 theorem postsolve_shape_is_model (due : List Ctl) (ls : Links) : runPTok Gen.postsolveShape due ls = some (runPass due ls) := by
   rfl
 
+theorem valve_loop_list (idBase : Nat) (us : List UCtl) (h : ∀ u ∈ us, (valveCompanion idBase u).isNone = false) :
+    (us.filter (fun u => u.attr == UAttr.setting)).map (fun u => (⟨idBase + u.id, u.prio, ⟨u.link, .user, 2⟩⟩ : Ctl))
+      = companionsOf (valveCompanion idBase) us := by
+  unfold companionsOf
+  induction us with
+  | nil => rfl
+  | cons u r ih =>
+    have hu := h u List.mem_cons_self
+    have ih' := ih (fun x hx => h x (List.mem_cons_of_mem _ hx))
+    simp only [List.filter_cons, List.filterMap_cons]
+    cases ha : u.attr <;> cases hk : u.kind <;>
+      first
+      | (exfalso; simp [valveCompanion, ha, hk] at hu; done)
+      | (have e : (valveCompanion idBase u).getD none = none := by simp [valveCompanion, ha, hk]
+         rw [e]; simpa [ha] using ih')
+      | (have e : (valveCompanion idBase u).getD none = some ⟨idBase + u.id, u.prio, ⟨u.link, .user, 2⟩⟩ := by
+           simp [valveCompanion, ha, hk]
+         rw [e]; simpa [ha] using ih')
+
+theorem pump_loop_list (idBase : Nat) (us : List UCtl) (h : ∀ u ∈ us, (pumpCompanion idBase u).isNone = false) :
+    (us.filter (fun u => u.attr == UAttr.baseSpeed)).map (fun u => (⟨idBase + u.id, u.prio, ⟨u.link, .user, 1⟩⟩ : Ctl))
+      = companionsOf (pumpCompanion idBase) us := by
+  unfold companionsOf
+  induction us with
+  | nil => rfl
+  | cons u r ih =>
+    have hu := h u List.mem_cons_self
+    have ih' := ih (fun x hx => h x (List.mem_cons_of_mem _ hx))
+    simp only [List.filter_cons, List.filterMap_cons]
+    cases ha : u.attr <;> cases hk : u.kind <;>
+      first
+      | (exfalso; simp [pumpCompanion, ha, hk] at hu; done)
+      | (have e : (pumpCompanion idBase u).getD none = none := by simp [pumpCompanion, ha, hk]
+         rw [e]; simpa [ha] using ih')
+      | (have e : (pumpCompanion idBase u).getD none = some ⟨idBase + u.id, u.prio, ⟨u.link, .user, 1⟩⟩ := by
+           simp [pumpCompanion, ha, hk]
+         rw [e]; simpa [ha] using ih')
+
+/-- `companion_loops_are_model`: the regenerated companion loops build exactly `Controls.companionsOf`: ONE companion per setting /
+base_speed action of EVERY control (no seen-set, no `continue`), same priority, same condition, status Active / Open -/
+theorem valve_companion_loop_is_model (idBase : Nat) (us : List UCtl) :
+    Gen.valveCompLoop = ⟨.setting, .valve, 2, true, true, true⟩
+    ∧ (runCompLoop idBase Gen.valveCompLoop us =
+        if us.any (fun u => (valveCompanion idBase u).isNone) then none else some (companionsOf (valveCompanion idBase) us)) := by
+  refine ⟨by decide, ?_⟩
+  simp only [runCompLoop, Gen.valveCompLoop, if_true]
+  have h1 : us.any (fun u => u.attr == UAttr.setting && u.kind != Kind.valve) = us.any (fun u => (valveCompanion idBase u).isNone) := by
+    congr 1; funext u
+    unfold valveCompanion
+    cases u.attr <;> cases u.kind <;> simp
+  rw [h1]
+  split
+  · rfl
+  · rename_i hne
+    rw [valve_loop_list idBase us (by
+      intro u hu
+      by_contra hc
+      exact hne (List.any_eq_true.mpr ⟨u, hu, by simpa using hc⟩))]
+
+theorem pump_companion_loop_is_model (idBase : Nat) (us : List UCtl) :
+    Gen.pumpCompLoop = ⟨.baseSpeed, .pump, 1, true, true, true⟩
+    ∧ (runCompLoop idBase Gen.pumpCompLoop us =
+        if us.any (fun u => (pumpCompanion idBase u).isNone) then none else some (companionsOf (pumpCompanion idBase) us)) := by
+  refine ⟨by decide, ?_⟩
+  simp only [runCompLoop, Gen.pumpCompLoop, if_true]
+  have h1 : us.any (fun u => u.attr == UAttr.baseSpeed && u.kind != Kind.pump) = us.any (fun u => (pumpCompanion idBase u).isNone) := by
+    congr 1; funext u
+    unfold pumpCompanion
+    cases u.attr <;> cases u.kind <;> simp
+  rw [h1]
+  split
+  · rfl
+  · rename_i hne
+    rw [pump_loop_list idBase us (by
+      intro u hu
+      by_contra hc
+      exact hne (List.any_eq_true.mpr ⟨u, hu, by simpa using hc⟩))]
+
 /-- who may write `_internal_status`: a PIPE gets an internal writer only through its check valve or a tank at one of its
 ends; pumps always have one (shut-off), valves through their valve-type logic or a tank -/
 theorem internal_writers_of_pipe : ∀ w ∈ Gen.internalWriters, w.kind = .pipe → w.guard = "cv" ∨ w.guard = "tank" := by
